@@ -3,14 +3,14 @@ from .. import core, fm, km, mc, ref
 from ..core import Failure
 from .c01 import minimise, NAMINGS, scope_iter
 
-FORMS = ['obj', 'text', 'str', 'ctls', 'shared']
+FORMS = ['obj', 'text', 'str', 'ctls', 'shared', 'raw']
 
 
-def call(K, g, naming, how, form, kripke=None, atoms=None):
+def call(K, g, naming, how, form, kripke=None, atoms=None, containers='list'):
     f = ('A', g)
     if form == 'ctls':
-        return mc.call('LTL', K, f, naming, how, form='obj', objlang='CTLS', kripke=kripke, atoms=atoms)
-    return mc.call('LTL', K, f, naming, how, form=form, kripke=kripke, atoms=atoms)
+        return mc.call('LTL', K, f, naming, how, form='obj', objlang='CTLS', kripke=kripke, atoms=atoms, containers=containers)
+    return mc.call('LTL', K, f, naming, how, form=form, kripke=kripke, atoms=atoms, containers=containers)
 
 
 def expected(M, g, certify=True, spot=0):
@@ -41,7 +41,8 @@ def check_ltl(inp):
     g = fm.from_json(inp['g'])
     M = ref.Model(K)
     exp = expected(M, g, certify=True, spot=inp.get('spot', 4))
-    out = call(K, g, inp.get('naming', 'int'), inp.get('how', 0), inp.get('form', 'obj'), atoms=inp.get('atoms'))
+    out = call(K, g, inp.get('naming', 'int'), inp.get('how', 0), inp.get('form', 'obj'), atoms=inp.get('atoms'),
+               containers=inp.get('containers', 'list'))
     if out == ('set', exp):
         return None
     note = ''
@@ -198,7 +199,8 @@ def enum_shard(st, shard, nshards, payload):
             how = idx % 6
             ai = (idx // 2) % len(fm.ATOM_MAPS)
             amap = fm.atom_map(ai)
-            kripke = km.to_lib(km.rename_labels(K, amap), naming, how)
+            cont = 'shared' if idx % 4 == 3 else 'list'
+            kripke = km.to_lib(km.rename_labels(K, amap), naming, how, cont)
             back = dict((km.name_of(naming)(i), i) for i in range(n))
             for gi, g in enumerate(paths):
                 if (j * 7 + gi) % nshards != shard:
@@ -207,7 +209,7 @@ def enum_shard(st, shard, nshards, payload):
                 try:
                     ok_ = (gi, ai if amap else None)
                     if ok_ not in objs:
-                        objs[ok_] = fm.to_lib(fm.rename_atoms(('A', g), amap), L, share={} if gi % 2 else None)
+                        objs[ok_] = fm.to_lib(fm.rename_atoms(('A', g), amap), L, raw_leaves=(gi % 3 == 2), share={} if gi % 2 else None)
                     res = L.modelcheck(kripke, objs[ok_])
                     out = mc.normalise(res, back)
                 except Exception as e:
@@ -220,7 +222,7 @@ def enum_shard(st, shard, nshards, payload):
                         st.bump(c)
                     st.bump('states=%d' % n)
                 if out != ('set', exp):
-                    inp = {'K': K, 'g': g, 'naming': naming, 'how': how, 'form': 'shared' if gi % 2 else 'obj', 'atoms': ai}
+                    inp = {'K': K, 'g': g, 'naming': naming, 'how': how, 'form': 'raw' if gi % 3 == 2 else ('shared' if gi % 2 else 'obj'), 'atoms': ai, 'containers': cont}
                     fresh = check_ltl(inp)
                     if fresh is None:
                         st.add_extra('mismatch_only_with_reused_structure')
@@ -294,6 +296,7 @@ def random_shard(st, shard, nshards, payload):
         'naming': hs.sampled_from(NAMINGS),
         'how': hs.integers(0, 5),
         'atoms': hs.integers(0, len(fm.ATOM_MAPS) - 1),
+        'containers': hs.sampled_from(['list', 'list', 'set', 'tuple', 'shared']),
         'form': hs.sampled_from(FORMS),
     })
 
